@@ -9,6 +9,7 @@ ID = 'C19'
 LEVEL = 'other'
 TARGETS = ['selfies/grammar_rules.py::process_atom_symbol',
            'selfies/grammar_rules.py::_process_atom_selfies_no_cache']
+ASSUMPTIONS = ["atom-symbol contracts (process_atom_symbol, _process_atom_selfies_no_cache, smiles_to_atom, tokenize_smiles) assume ASCII input of at most 4000 characters: Unicode digits matched by \\\\d and CPython's 4300-digit int() limit are recorded known findings", "regex match groups are modelled as SOME decomposition of the string into the pattern's top-level pieces (sound over-approximation of the greedy choice); functools.partial(Atom, **kw) is modelled as a heap object whose call constructs a fresh Atom"]
 EXPLANATION = (
     "Contracts cannot quantify over schedules; what is machine-checked is the sequential side condition (G) of a "
     "rely/guarantee argument plus a bounded stress run. (G), re-derived from /repo's source on every run: every "
